@@ -199,7 +199,7 @@ def check_C12(report: common.Report):
     hits = []
     for chunk in re.split(r'(?=Error: Invariant \w+ is violated)', res.output):
         m = re.match(r'Error: Invariant (\w+) is violated', chunk)
-        ls = re.findall(r'l = (\d+)', chunk)
+        ls = re.findall(r'(?m)^l = (\d+)\s*$', chunk)   # anchored: the final statistics contain "val = 9.2E-15"
         if m and ls:
             hits.append((m.group(1), int(ls[-1])))
     if res.timeout or (res.error_lines and not hits) or res.distinct != len(lines):
